@@ -228,7 +228,7 @@ Definition ghandler (rec : list string -> string -> list pyval -> list bitref ->
                     | [], Some bs', Some vs' => rec stk gname vs' bs'
                     | _, _, _ => None
                     end
-        | None => mod_ok env op'
+        | None => mod_ok env G op'
         end
     | _ => None
     end.
@@ -445,7 +445,7 @@ Definition gtop_step (env : renv) (G : genv) (stm : stmt) : option (renv * genv 
       match gcall_ok env G stm with
       | Some (out, evs) => Some (env, G, out, evs)
       | None =>
-          match mod_ok env stm with
+          match mod_ok env G stm with
           | Some (out, evs) => Some (env, G, out, evs)
           | None => match ptop_step env stm with Some (env', out, evs) => Some (env', G, out, evs) | None => None end
           end
@@ -507,7 +507,7 @@ Proof.
                                gates s1 = G' /\ gstack s1 = []).
     { assert (Hother : (match gcall_ok env G stm with
                         | Some (out, evs) => Some (env, G, out, evs)
-                        | None => match mod_ok env stm with
+                        | None => match mod_ok env G stm with
                                   | Some (out, evs) => Some (env, G, out, evs)
                                   | None => match ptop_step env stm with Some (env', out, evs) => Some (env', G, out, evs) | None => None end
                                   end
@@ -528,10 +528,10 @@ Proof.
           destruct (DE_counts _ _ D1) as [Nq Nc]. destruct (gframe_DE _ _ D1) as [Fg Fs].
           exists s1. split; [exact E1|]. split; [eapply Top_DE; eauto|]. split; [lia|]. split; [lia|]. split; [exact S1|].
           split; [intros r0; now apply wf_flat_ops|]. split; congruence.
-        - destruct (mod_ok env stm) as [[mo me]|] eqn:Emo.
+        - destruct (mod_ok env G stm) as [[mo me]|] eqn:Emo.
           { injection Eo as <- <- <- <-. destruct fuel as [|f]; [lia|].
-            destruct (mod_fix false f env s stm mo me (T_regs _ _ T) Emo) as (s1 & E1 & D1 & S1).
-            pose proof (mod_ok_ops env stm mo me Emo) as Ops. destruct (total_ops env mo Ops) as [Tq Tc].
+            destruct (mod_fix false f env G s stm mo me (T_regs _ _ T) HG Emo) as (s1 & E1 & D1 & S1).
+            pose proof (mod_ok_ops env G stm mo me Emo) as Ops. destruct (total_ops env mo Ops) as [Tq Tc].
             destruct (DE_counts _ _ D1) as [Nq Nc]. destruct (gframe_DE _ _ D1) as [Fg Fs].
             exists s1. split; [exact E1|]. split; [eapply Top_DE; eauto|]. split; [lia|]. split; [lia|]. split; [exact S1|].
             split; [intros r0; now apply wf_flat_ops|]. split; congruence. }
@@ -649,7 +649,7 @@ Proof.
         destruct (gframe_DE _ _ D1) as [Fg Fs]. split; [eapply Top_DE; eauto|]. split; [lia|]. split; [lia|]. split; congruence. }
       assert (Hother : (match gcall_ok env G stm with
                         | Some (out, evs) => Some (env, G, out, evs)
-                        | None => match mod_ok env stm with
+                        | None => match mod_ok env G stm with
                                   | Some (out, evs) => Some (env, G, out, evs)
                                   | None => match ptop_step env stm with Some (env', out, evs) => Some (env', G, out, evs) | None => None end
                                   end
@@ -666,9 +666,9 @@ Proof.
           assert (HNf : (gate_nesting <= S f)%nat) by lia.
           destruct (gcall_fix true env G gate_nesting f [] s name args vs bs out' evs' HNf (T_regs _ _ T) HG Hst Ev Ec) as (s1 & E1 & D1 & S1).
           exists s1. split; [exact E1|]. apply HDE; auto. eapply gcall_ops; eauto.
-        - destruct (mod_ok env stm) as [[mo me]|] eqn:Emo.
+        - destruct (mod_ok env G stm) as [[mo me]|] eqn:Emo.
           { injection Eo as <- <- <- <-. destruct fuel as [|f]; [lia|].
-            destruct (mod_fix true f env s stm mo me (T_regs _ _ T) Emo) as (s1 & E1 & D1 & S1).
+            destruct (mod_fix true f env G s stm mo me (T_regs _ _ T) HG Emo) as (s1 & E1 & D1 & S1).
             exists s1. split; [exact E1|]. apply HDE; auto. eapply mod_ok_ops; eauto. }
           destruct (ptop_step env stm) as [[[env'' out''] evs'']|] eqn:Ep; [|discriminate Eo]. injection Eo as <- <- <- <-.
           unfold ptop_step in Ep. destruct (loop_ok env stm) as [lo|] eqn:El.
@@ -708,4 +708,55 @@ Proof.
   intros Hx Hf HN. unfold run_visit. cbn [andb].
   destruct (gprogram_accepts fuel p HN env0 [] init_st q evs Hf Top_init eq_refl eq_refl Hx) as (s2 & E2 & Nq2 & Nc2).
   rewrite E2. cbn in Nq2, Nc2. eexists. split; [reflexivity|]. cbn [o_state]. split; assumption.
+Qed.
+
+(* ---------- registers declared without a size ---------- *)
+(* `qubit q;` and `bit c;` are visited exactly as `qubit[1] q;` and `bit[1] c;` *)
+Definition sized (stm : stmt) : stmt :=
+  match stm with
+  | SQubitDecl name None => SQubitDecl name (Some (ELit (VInt 1)))
+  | SClassicalDecl (TBit None) name init => SClassicalDecl (TBit (Some (ELit (VInt 1)))) name init
+  | _ => stm
+  end.
+
+Lemma visit_sized co fuel stm s : visit_stmt co [] fuel stm s = visit_stmt co [] fuel (sized stm) s.
+Proof.
+  destruct fuel as [|f]; [reflexivity|]. destruct stm; try reflexivity.
+  - destruct size; reflexivity.
+  - destruct t; try reflexivity. destruct size; [reflexivity|]. cbn [sized visit_stmt visit_stmt_body]. unfold visit_classical_decl. reflexivity.
+Qed.
+
+Lemma concat_visit_sized co fuel l : forall s, concatMM (visit_stmt co [] fuel) l s = concatMM (visit_stmt co [] fuel) (map sized l) s.
+Proof.
+  induction l as [|stm l IH]; intros s; [reflexivity|]. cbn [map concatMM]. unfold bindM. rewrite (visit_sized co fuel stm s).
+  destruct (visit_stmt co [] fuel (sized stm) s) as [[y s1]|]; [|reflexivity]. rewrite (IH s1). reflexivity.
+Qed.
+
+Lemma sdepth_sized stm : sdepth (sized stm) = sdepth stm.
+Proof. destruct stm; try reflexivity. - destruct size; reflexivity. - destruct t; try reflexivity. destruct size; reflexivity. Qed.
+Lemma ldepth_sized l : ldepth (map sized l) = ldepth l.
+Proof. induction l as [|x l IH]; [reflexivity|]. unfold ldepth in *. cbn [map fold_right]. now rewrite IH, sdepth_sized. Qed.
+
+(* the judgement on source programs: unsized registers read as registers of size 1 *)
+Definition gjudge (p : list stmt) : option (list stmt * list (list rsrc)) := gexpand env0 [] (map sized p).
+
+Theorem source_programs_unroll_to_their_expansion fuel p q evs :
+  gjudge p = Some (q, evs) -> (ldepth p + 1 < fuel)%nat -> (gate_nesting < fuel)%nat ->
+  exists o, run_visit false false [] fuel p = Ok o /\ o_stmts o = q /\ wf_flat env0 q = true /\
+            num_qubits (o_state o) = total_qubits q /\ num_clbits (o_state o) = total_clbits q /\
+            forall r, dof (o_state o) r = depth_after rsrc_eqb evs r.
+Proof.
+  intros Hx Hf HN. rewrite <- ldepth_sized in Hf.
+  destruct (programs_with_gate_definitions_unroll_to_their_expansion fuel (map sized p) q evs Hx Hf HN) as (o & E & R).
+  exists o. split; [|exact R]. unfold run_visit in *. cbn [andb] in *. now rewrite concat_visit_sized.
+Qed.
+
+Theorem source_programs_are_accepted_by_validate fuel p q evs :
+  gjudge p = Some (q, evs) -> (ldepth p + 1 < fuel)%nat -> (gate_nesting < fuel)%nat ->
+  exists o, run_visit false true [] fuel p = Ok o /\
+            num_qubits (o_state o) = total_qubits q /\ num_clbits (o_state o) = total_clbits q.
+Proof.
+  intros Hx Hf HN. rewrite <- ldepth_sized in Hf.
+  destruct (programs_of_the_judgement_are_accepted_by_validate fuel (map sized p) q evs Hx Hf HN) as (o & E & R).
+  exists o. split; [|exact R]. unfold run_visit in *. cbn [andb] in *. now rewrite concat_visit_sized.
 Qed.
